@@ -13,6 +13,10 @@
     `DisjointIds` (`disjoint_sublist`), so isolation holds for the remaining files. The directory walk (an
     unreadable sub-directory is skipped, after the `fix:`) is exercised with real permission faults as a
     non-root user in checks/c08.py; filepath.Walk itself is modelled-not-verified.
+  * the goroutine pool (`Cpf.Scan.PoolF`, file-carrying transition system): `C08_scan` — under every schedule and
+    whatever the siblings are, a readable file is merged exactly once and its identities are bound to its own
+    graph's bindings. A worker that gives up on a file goes back to the loop head (`fail`), as the regenerated
+    control shape `C07_pool_shape` says (`if[continue]`).
 -/
 import Cpf.Props.C07
 
@@ -54,6 +58,17 @@ theorem C08_faults (results : List (Option (Local Id V E))) (hd : DisjointIds (s
   apply C08_isolation _ hd l _ i hi
   simp only [skipFaulty, List.mem_filterMap, id]
   exact ⟨some l, hl, rfl⟩
+
+/-- **C08 (the whole scan)**: restated from `Cpf.Props.C07.C08_scan_isolation` — over the file-carrying model of
+    the goroutine pool: for every list of files, every assignment of "can be read and parsed", every number of
+    workers ≥ 1 and every schedule, the returned graph binds the identities of a readable file to what that
+    file's own graph binds them to. -/
+theorem C08_scan {F : Type} [DecidableEq F] (files : List F) (ok : F → Bool) (g : F → Local Id V E)
+    (hd : DisjointIds ((files.filter ok).map g)) (w : Nat) (hw : 0 < w) (s : Cpf.Scan.PoolF.StF F)
+    (hr : Cpf.Scan.PoolF.ReachF (srcCfg files.length) ok files w s) (hret : s.mainPc = 4)
+    (f : F) (hf : f ∈ files) (hok : ok f = true) (i : Id) (hi : i ∈ ids (g f)) :
+    lookup (merge (s.collected.map g)).nodes i = lookup (g f).nodes i :=
+  Cpf.Props.C07.C08_scan_isolation files ok g hd w hw s hr hret f hf hok i hi
 
 /-- Non-vacuity: F merged with a sibling and a faulty file. -/
 example :
